@@ -146,17 +146,44 @@ Definition eval_rust_int (raw : string) : option Z := math_int (parse_literal ra
 Definition f32_limit : N := (2 ^ 128 - 2 ^ 103)%N.     (* values at or above round to infinity *)
 Definition f64_limit : N := (2 ^ 1024 - 2 ^ 970)%N.
 
+(* split "D1eD2" / "D1ED2" *)
+Fixpoint split_exp (s : string) (acc : string) : string * option string :=
+  match s with
+  | EmptyString => (acc, None)
+  | String c r => if (Ascii.eqb c "e" || Ascii.eqb c "E")%bool then (acc, Some r)
+                  else split_exp r (acc ++ String c EmptyString)
+  end.
+
+(* str::parse::<f32/f64>() of a sign-less mantissa: DIGITS, DIGITS.DIGITS, or DIGITS e DIGITS
+   (the latter arises only from hexadecimal literals such as 0x1e5 once "0x" is stripped);
+   Some true = finite, Some false = infinite, None = parse error *)
+Definition float_parse (limit : N) (body : string) : option bool :=
+  let '(m, e) := split_exp body EmptyString in
+  match e with
+  | None =>
+      let '(i, f) := split_dot m EmptyString in
+      match digits 10 i, f with
+      | Some iv, None => Some (iv <? limit)%N
+      | Some iv, Some fs => match digits 10 fs with Some _ => Some (iv <? limit)%N | None => None end
+      | None, _ => None
+      end
+  | Some es =>
+      match digits 10 m, digits 10 es with
+      | Some mv, Some ev =>
+          if (mv =? 0)%N then Some true
+          else if (400 <? ev)%N then Some false
+          else Some (mv * 10 ^ ev <? limit)%N
+      | _, _ => None
+      end
+  end.
+
 Definition range_check_float (p : prim) (raw : string) : option bool :=
-  let l := parse_literal raw in
-  if l_hex l then None else
-  match p, digits 10 (l_int l) with
-  | F32, Some i => Some (match l_frac l with
-                         | Some f => match digits 10 f with Some _ => (i <? f32_limit)%N | None => false end
-                         | None => (i <? f32_limit)%N end)
-  | F64, Some i => Some (match l_frac l with
-                         | Some f => match digits 10 f with Some _ => (i <? f64_limit)%N | None => false end
-                         | None => (i <? f64_limit)%N end)
-  | _, _ => None
+  let s := remove_0x raw in
+  let body := match s with String "-" r => r | String "+" r => r | _ => s end in
+  match p with
+  | F32 => Some (match float_parse f32_limit body with Some true => true | _ => false end)
+  | F64 => Some (match float_parse f64_limit body with Some true => true | _ => false end)
+  | _ => None
   end.
 
 Definition range_check (p : prim) (raw : string) : option bool :=
